@@ -196,3 +196,16 @@ impl<'de> Deserialize<'de> for Tree {
         d.deserialize_any(V)
     }
 }
+
+// `Tree` always validates: the validating entry points can then be driven with the same untyped target
+// (their budget handling is a separate copy of the plain entry points').
+impl garde::Validate for Tree {
+    type Context = ();
+    fn validate_into(&self, _ctx: &(), _parent: &mut dyn FnMut() -> garde::Path, _report: &mut garde::Report) {}
+}
+
+impl validator::Validate for Tree {
+    fn validate(&self) -> Result<(), validator::ValidationErrors> {
+        Ok(())
+    }
+}
